@@ -185,6 +185,19 @@ def entries() -> t.List[t.Tuple[str, dict, t.List[dict]]]:
                                     'B': P(('p', 'in', 'I')),
                                     'O': P(('c', 'switch', {'switch': 'S', 'cases': [['a', 'A'], ['b', 'B']], 'name': 'swr2'}))},
                           'input': 'I', 'output': 'O'})
+    # one sub-pipeline reachable from two kinds of scope, the input choosing which (plain case vs one-of candidate)
+    add('scope_mix_rec', {'nodes': {'I': P(('x', 'plain')), 'S': P(('p', 'in', 'I')), 'T': P(('p', 'in', 'I')), 'D': P(('p', 'in', 'T')),
+                                    'PL': P(('r', 'rec', {'start': 'T', 'dest': 'D', 'max': 1})),
+                                    'CA': P(('r', 'rec', {'start': 'T', 'dest': 'D', 'max': 1})), 'F': P(('p', 'in', 'I')),
+                                    'G': P(('o', 'oneof', ['CA', 'F'])),
+                                    'O': P(('c', 'switch', {'switch': 'S', 'cases': [['a', 'PL'], ['b', 'G']], 'name': 'swm'}))},
+                          'input': 'I', 'output': 'O'},
+        [{'S': ['label:b'], 'D': ['next', 'ok'], 'T': ['ok', 'raise:E1']}, {'S': ['label:a'], 'D': ['next', 'ok'], 'T': ['ok', 'raise:E1']}])
+    add('scope_mix_plain', {'nodes': {'I': P(('x', 'plain')), 'S': P(('p', 'in', 'I')), 'T': P(('p', 'in', 'I')), 'D': P(('p', 'in', 'T')),
+                                      'PL': P(('r', 'in', 'D')), 'CA': P(('r', 'in', 'D')), 'F': P(('p', 'in', 'I')),
+                                      'G': P(('o', 'oneof', ['CA', 'F'])),
+                                      'O': P(('c', 'switch', {'switch': 'S', 'cases': [['a', 'PL'], ['b', 'G']], 'name': 'swm'}))},
+                            'input': 'I', 'output': 'O'})
     return E
 
 
